@@ -1,7 +1,7 @@
 (* C07 - Callback lifecycle: open first, close once and last, bounded parallelism.
    Proved over the skeleton of ReadLoop (both roles) regenerated from /repo on every run. *)
 From Coq Require Import List Bool Arith.
-From Gws Require Import Skel.IR Skel.Checker Skel.Monitors Skel.Lifecycle Skel.Obligations Skel.Link Skel.GlobalSem.
+From Gws Require Import Skel.IR Skel.Checker Skel.Monitors Skel.Lifecycle Skel.Obligations Skel.OblLifecycle Skel.Link Skel.GlobalSem.
 Import ListNotations.
 
 (* every complete execution of the read loop - however the connection ends: peer close, local close, protocol error,
